@@ -39,6 +39,7 @@ type Result struct {
 	Profile  string         `json:"profile,omitempty"`
 	Seed     int64          `json:"seed"`
 	Hash     string         `json:"hash"`
+	Canon    string         `json:"canon"`
 	Viol     *Violation     `json:"viol,omitempty"`
 	Trouble  string         `json:"trouble,omitempty"`
 	Known    string         `json:"known,omitempty"` // signature of a known finding that was hit (scenario-classified)
@@ -118,6 +119,7 @@ func Execute(t *testing.T, job *Job) (res Result) {
 		})
 	}()
 	res.Hash = r.LogHash()
+	res.Canon = r.CanonHash()
 	res.Viol = r.Viol
 	if r.Trouble != nil {
 		res.Trouble = r.Trouble.Msg
